@@ -78,6 +78,10 @@ def run(repo, rep, tier):
     # a node's settings (its default marker, its escape set) reach the
     # engine that compiles its expression
     L.engine_fields_rule(repo, rep, "R04.1")
+    # a statement written in the data-* spelling is the same expression
+    # (C18 owns the conversion: it runs before the values are decoded)
+    from . import c18 as _c18
+    L.borrow(repo, rep, "R04.1", "C18", _c18._keyed, ("convert-first",))
     L.state_rule(repo, rep)
 
 
@@ -1084,3 +1088,18 @@ def rewriter_total(repo, rep, rule="R04.6"):
         rep.check(bool(adds), rule, m.qualname, "%s registers the name it "
                   "binds in the scope" % hname,
                   construct="binds-registered:" + hname, where=L.where(m))
+    # a comprehension target binds every name in it, at any depth:
+    # 'for k, (a, b) in ...', 'for first, *rest in ...' -- the names are
+    # collected by a walk over the whole target, not over its top level
+    cm = ci.methods.get("_visit_comprehension")
+    walks = [lp for lp in ast.walk(cm.node) if isinstance(lp, ast.For)
+             and isinstance(lp.iter, ast.Call)
+             and src(lp.iter.func) == "ast.walk" and lp.iter.args
+             and src(lp.iter.args[0]).endswith(".target")
+             and any(isinstance(c, ast.Call) and
+                     isinstance(c.func, ast.Attribute) and
+                     c.func.attr == "add" for c in ast.walk(lp))]
+    rep.check(bool(walks), rule, cm.qualname, "the names a comprehension "
+              "binds are collected from the whole target (nested and "
+              "starred elements included)",
+              construct="comprehension-target-walked", where=L.where(cm))
